@@ -29,21 +29,12 @@ theorem allIdsInSpan_spec (T : NameTables) (names : List (List Nat)) (h : allIds
     rw [List.getD_eq_getElem?_getD, List.getElem?_eq_getElem hlt]
     simpa [nameInSpan] using hm
 
-theorem allSpansOk_spec (T : NameTables) (names : List (List Nat)) (h : allSpansOk T names = true)
-    (p : Nat) (hp : p < 26) (h0 : (T.spans.getD p (0, 0)).1 ≠ 0) : spanOk T names p = true := by
+theorem allSpansOk_spec (T : NameTables) (pn : List (List Nat)) (h : allSpansOk T pn = true)
+    (p : Nat) (hp : p < 26) (h0 : (T.spans.getD p (0, 0)).1 ≠ 0) : spanOk T pn p = true := by
   simp only [allSpansOk, List.all_eq_true, List.mem_range, Bool.or_eq_true, beq_iff_eq] at h
   rcases h p hp with h | h
   · exact absurd h h0
   · exact h
-
-/-- Round trip through `find_instruction`, for every table whose index is well formed at the letter of `id`:
-    the printed name of `id` is found again, as `id`. -/
-theorem find_roundtrip (T : NameTables) (names : List (List Nat)) (hd : decodeOk T names = true)
-    (hids : allIdsInSpan T names = true) (id : Nat) (h0 : 0 < id) (hlt : id < T.count)
-    (hsp : spanOk T names (letterOf names id) = true) : findInstruction T (names.getD id []) = id := by
-  have hlen : names.length = T.count := by
-    simp only [decodeOk, Bool.and_eq_true, beq_iff_eq] at hd; exact hd.1.1
-  exact findInstruction_finds T names hd id (allIdsInSpan_spec T names hids id h0 (by omega)) hsp
 
 theorem idInSpan_len (T : NameTables) (names : List (List Nat)) (id : Nat) (h : idInSpan T names id = true) :
     (names.getD id []).length ≠ 0 ∧ (names.getD id []).length ≤ T.maxLen := by
@@ -70,6 +61,124 @@ theorem letter_has_span (T : NameTables) (names : List (List Nat)) (id : Nat) (h
     simp only [hcc, and_self, if_true]
     exact ⟨by omega, cz⟩
 
+theorem idAt_nil (T : NameTables) (h : T.sortedIds = []) (i : Nat) : idAt T i = i := by
+  unfold idAt; rw [if_pos h]
+
+theorem posNames_nil (T : NameTables) (names : List (List Nat)) (h : T.sortedIds = []) : posNames T names = names := by
+  unfold posNames; rw [if_pos h]
+
+/-- Round trip through `find_instruction` when the ids themselves are sorted (no sorted id table), for every table
+    whose index is well formed at the letter of `id`: the printed name of `id` is found again, as `id`. -/
+theorem find_roundtrip (T : NameTables) (names : List (List Nat)) (hd : decodeOk T names = true) (hnil : T.sortedIds = [])
+    (hids : allIdsInSpan T names = true) (id : Nat) (h0 : 0 < id) (hlt : id < T.count)
+    (hsp : spanOk T names (letterOf names id) = true) : findInstruction T (names.getD id []) = id := by
+  have hlen := names_length T names hd
+  have hs : sortedIdsOk T = true := by unfold sortedIdsOk; rw [hnil]; rfl
+  have h := findInstruction_finds T names hd hs id
+    (by rw [posNames_nil T names hnil]; exact allIdsInSpan_spec T names hids id h0 (by omega))
+    (by rw [posNames_nil T names hnil]; exact hsp)
+  rw [posNames_nil T names hnil, idAt_nil T hnil] at h
+  exact h
+
+theorem allNamesIndexed_spec (T : NameTables) (pn names : List (List Nat)) (posOfId : List Nat)
+    (h : allNamesIndexed T pn names posOfId = true) (id : Nat) (h0 : 0 < id) (hlt : id < names.length) :
+    idInSpan T pn (posOfId.getD id 0) = true ∧ pn.getD (posOfId.getD id 0) [] = names.getD id [] := by
+  simp only [allNamesIndexed, Bool.and_eq_true, beq_iff_eq, List.all_eq_true] at h
+  obtain ⟨hl, h⟩ := h
+  have hz : id < ((names.zip posOfId).zipIdx).length := by simp [List.length_zip]; omega
+  have hm := h (((names.zip posOfId).zipIdx)[id]) (List.getElem_mem hz)
+  simp only [List.getElem_zipIdx, List.getElem_zip, Nat.zero_add, Bool.or_eq_true, beq_iff_eq, Bool.and_eq_true] at hm
+  have e : names.getD id [] = names[id] := by
+    rw [List.getD_eq_getElem?_getD, List.getElem?_eq_getElem hlt]; rfl
+  have e2 : posOfId.getD id 0 = posOfId[id]'(by omega) := by
+    rw [List.getD_eq_getElem?_getD, List.getElem?_eq_getElem (by omega)]; rfl
+  rcases hm with hm | ⟨hm1, hm2⟩
+  · omega
+  · rw [e, e2]
+    refine ⟨?_, hm2⟩
+    unfold idInSpan
+    rw [hm2]
+    simpa [nameInSpan] using hm1
+
+/-- Round trip through `find_instruction` with a sorted id table: the printed name of `id` is found again, as an id
+    that prints the same name (`pn` = the names by search position). -/
+theorem find_roundtrip_sorted (T : NameTables) (names pn : List (List Nat)) (posOfId : List Nat) (hpn : posNames T names = pn)
+    (hd : decodeOk T names = true) (hs : sortedIdsOk T = true)
+    (hidx : allNamesIndexed T pn names posOfId = true) (hspans : allSpansOk T pn = true)
+    (id : Nat) (h0 : 0 < id) (hlt : id < T.count) :
+    findInstruction T (names.getD id []) < T.count ∧
+    names.getD (findInstruction T (names.getD id [])) [] = names.getD id [] := by
+  subst hpn
+  have hlen := names_length T names hd
+  have ⟨hin, hpn⟩ := allNamesIndexed_spec T _ names posOfId hidx id h0 (by omega)
+  have ⟨p1, p2⟩ := letter_has_span T (posNames T names) _ hin
+  have hsp := allSpansOk_spec T _ hspans _ p1 p2
+  have hf := findInstruction_finds T names hd hs _ hin hsp
+  rw [hpn] at hf
+  have hpos : posOfId.getD id 0 < (posNames T names).length := by
+    have hne : (posNames T names).getD (posOfId.getD id 0) [] ≠ [] := by
+      rw [hpn]
+      have := idInSpan_len T (posNames T names) _ hin
+      rw [hpn] at this
+      intro e; rw [e] at this; simp at this
+    apply Classical.byContradiction
+    intro hge
+    rw [List.getD_eq_getElem?_getD, List.getElem?_eq_none (by omega)] at hne
+    simp at hne
+  have ⟨q1, q2⟩ := posNames_getD T names hd hs _ hpos
+  rw [hf]
+  exact ⟨q1, by rw [← q2, hpn]⟩
+
+/-- a name that occurs once in the table belongs to one id -/
+theorem occ_unique (l : List (List Nat)) (s : List Nat) : ∀ i j, i < l.length → j < l.length →
+    l.getD i [] = s → l.getD j [] = s → occurrences l s = 1 → i = j := by
+  unfold occurrences
+  induction l with
+  | nil => intro i j hi; simp at hi
+  | cons x xs ih =>
+    intro i j hi hj ei ej hocc
+    have hmem : ∀ k, k < xs.length → xs.getD k [] = s → s ∈ xs.filter (· == s) := by
+      intro k hk ek
+      rw [List.getD_eq_getElem?_getD, List.getElem?_eq_getElem hk] at ek
+      exact List.mem_filter.mpr ⟨by rw [← ek]; exact List.getElem_mem hk, by simp⟩
+    cases i with
+    | zero =>
+      cases j with
+      | zero => rfl
+      | succ j =>
+        simp only [List.getD_cons_zero] at ei
+        simp only [List.getD_cons_succ] at ej
+        subst ei
+        simp only [List.filter_cons, beq_self_eq_true, if_true, List.length_cons] at hocc
+        have := hmem j (by simpa using hj) ej
+        have hz : (xs.filter (· == x)).length = 0 := by omega
+        rw [List.length_eq_zero_iff.mp hz] at this
+        simp at this
+    | succ i =>
+      cases j with
+      | zero =>
+        simp only [List.getD_cons_zero] at ej
+        simp only [List.getD_cons_succ] at ei
+        subst ej
+        simp only [List.filter_cons, beq_self_eq_true, if_true, List.length_cons] at hocc
+        have := hmem i (by simpa using hi) ei
+        have hz : (xs.filter (· == x)).length = 0 := by omega
+        rw [List.length_eq_zero_iff.mp hz] at this
+        simp at this
+      | succ j =>
+        simp only [List.getD_cons_succ] at ei ej
+        by_cases hx : x = s
+        · subst hx
+          simp only [List.filter_cons, beq_self_eq_true, if_true, List.length_cons] at hocc
+          have := hmem i (by simpa using hi) ei
+          have hz : (xs.filter (· == x)).length = 0 := by omega
+          rw [List.length_eq_zero_iff.mp hz] at this
+          simp at this
+        · have hb : (x == s) = false := by simpa using hx
+          simp only [List.filter_cons, hb] at hocc
+          have := ih i j (by simpa using hi) (by simpa using hj) ei ej (by simpa using hocc)
+          omega
+
 /-! ### x86 -/
 
 namespace X86
@@ -78,10 +187,11 @@ open AsmjitVerif.Gen.X86Names
 theorem decode_ok : decodeOk tables names = true := by decide +kernel
 theorem ids_in_span : allIdsInSpan tables names = true := by decide +kernel
 theorem spans_sorted : allSpansOk tables names = true := by decide +kernel
-theorem spans_in_table : ∀ p, (tables.spans.getD p (0, 0)).2 ≤ tables.count := by
+theorem sorted_ids_ok : sortedIdsOk tables = true := by decide +kernel
+theorem spans_in_table : ∀ p, (tables.spans.getD p (0, 0)).2 ≤ (posNames tables names).length := by
   intro p
   by_cases hp : p < 26
-  · have : ∀ q, q < 26 → (tables.spans.getD q (0, 0)).2 ≤ tables.count := by decide +kernel
+  · have : ∀ q, q < 26 → (tables.spans.getD q (0, 0)).2 ≤ (posNames tables names).length := by decide +kernel
     exact this p hp
   · have hl : tables.spans.length = 26 := by decide +kernel
     rw [List.getD_eq_getElem?_getD, List.getElem?_eq_none (by omega)]
@@ -96,7 +206,7 @@ theorem name_roundtrip (id : Nat) (h0 : 0 < id) (hlt : id < tables.count) :
   have ⟨p1, p2⟩ := letter_has_span tables names id hin
   have hsp : spanOk tables names (letterOf names id) = true :=
     allSpansOk_spec tables names spans_sorted _ p1 p2
-  have hf := find_roundtrip tables names decode_ok ids_in_span id h0 hlt hsp
+  have hf := find_roundtrip tables names decode_ok rfl ids_in_span id h0 hlt hsp
   unfold x86StringToInstId
   have hc : ¬ ((names.getD id []).length = 0 ∨ (names.getD id []).length > tables.maxLen) := by omega
   rw [if_neg hc]
@@ -124,7 +234,7 @@ theorem lookup_sound (s : List Nat) (hr : x86StringToInstId tables aliasTables s
     by_cases hf : findInstruction tables s ≠ 0
     · simp only [hf, ne_eq, not_false_eq_true, if_true]
       left
-      exact (findInstruction_sound tables names decode_ok spans_in_table s hf).2
+      exact (findInstruction_sound tables names decode_ok sorted_ids_ok spans_in_table s hf).2
     · simp only [hf, if_false] at hr ⊢
       cases ha : findAlias aliasTables s with
       | none => rw [ha] at hr; exact absurd rfl hr
@@ -155,43 +265,66 @@ end X86
 
 /-! ### AArch64
 
-Full-strength statement (does NOT hold on the pinned tree - known finding C13-a64-names, DESIGN.md section 7 #16):
-
-  theorem name_roundtrip (id) (h0 : 0 < id) (hlt : id < tables.count) :
-      roundTripOk names id (a64StringToInstId tables (names.getD id [])) = true
-
-The AArch64 ids are not in alphabetical order (a general-purpose run followed by a SIMD run `_v`, and 22 further
-descents inside the first run such as `extr, eret` or `tst, tbnz`), but `_inst_name_index` spans from the first to the
-last id of a letter, so `find_instruction` bisects an unsorted range. Proved instead: the round trip for every id whose
-letter has a strictly increasing span (`name_roundtrip_partial`; the extra hypothesis excludes exactly the finding's
-class), that a lookup never returns an id with a different name (`lookup_sound`), and the failure at a witness. -/
+The AArch64 ids are not in alphabetical order (a general-purpose run followed by a SIMD run `_v` that reuses mnemonics, and
+22 further descents inside the first run such as `extr, eret` or `tst, tbnz`). On the pinned tree `_inst_name_index`
+spanned ids and `find_instruction` bisected an unsorted range (finding C13-a64-names, DESIGN.md section 7 #16: 186 of 775
+names were looked up to kIdNone). fixes/C13-8.patch generates a table of ids sorted by name (one id per distinct name) and
+lets the spans refer to positions in it; the theorems below are about the tables of the *current* tree and close exactly
+when that table is present and sorted. -/
 
 namespace A64
 open AsmjitVerif.Gen.A64Names
 
 theorem decode_ok : decodeOk tables names = true := by decide +kernel
-theorem ids_in_span : allIdsInSpan tables names = true := by decide +kernel
-theorem spans_in_table : ∀ p, (tables.spans.getD p (0, 0)).2 ≤ tables.count := by
+theorem sorted_ids_ok : sortedIdsOk tables = true := by decide +kernel
+/-- the names by search position, as the translator printed them, are what the sorted id table says -/
+theorem pos_names_eq : posNames tables names = sortedNames := by decide +kernel
+theorem names_indexed : allNamesIndexed tables sortedNames names posOfId = true := by decide +kernel
+theorem spans_sorted : allSpansOk tables sortedNames = true := by decide +kernel
+theorem spans_in_table : ∀ p, (tables.spans.getD p (0, 0)).2 ≤ (posNames tables names).length := by
   intro p
+  rw [pos_names_eq]
   by_cases hp : p < 26
-  · have : ∀ q, q < 26 → (tables.spans.getD q (0, 0)).2 ≤ tables.count := by decide +kernel
+  · have : ∀ q, q < 26 → (tables.spans.getD q (0, 0)).2 ≤ sortedNames.length := by decide +kernel
     exact this p hp
   · have hl : tables.spans.length = 26 := by decide +kernel
     rw [List.getD_eq_getElem?_getD, List.getElem?_eq_none (by omega)]
     simp
 
-theorem name_roundtrip_partial (id : Nat) (h0 : 0 < id) (hlt : id < tables.count)
-    (hsp : spanOk tables names (letterOf names id) = true) :
-    a64StringToInstId tables (names.getD id []) = id := by
+/-- AArch64, all 775 ids: the printed name of `id` is looked up to an id that prints the same name (general lemma
+    `bsearch_finds` + kernel-checked facts about the regenerated tables). -/
+theorem name_roundtrip (id : Nat) (h0 : 0 < id) (hlt : id < tables.count) :
+    a64StringToInstId tables (names.getD id []) < tables.count ∧
+    names.getD (a64StringToInstId tables (names.getD id [])) [] = names.getD id [] := by
   have hlen : names.length = tables.count := by decide +kernel
-  have hin := allIdsInSpan_spec tables names ids_in_span id h0 (by omega)
-  have ⟨l1, l2⟩ := idInSpan_len tables names id hin
-  have hf := find_roundtrip tables names decode_ok ids_in_span id h0 hlt hsp
+  have ⟨hin, hpn⟩ := allNamesIndexed_spec tables sortedNames names posOfId names_indexed id h0 (by omega)
+  have hl := idInSpan_len tables sortedNames _ hin
+  rw [hpn] at hl
+  have h := find_roundtrip_sorted tables names sortedNames posOfId pos_names_eq decode_ok sorted_ids_ok names_indexed spans_sorted id h0 hlt
   unfold a64StringToInstId
   have hc : ¬ ((names.getD id []).length = 0 ∨ (names.getD id []).length > tables.maxLen) := by omega
-  rw [if_neg hc, hf]
+  rw [if_neg hc]
+  exact h
 
-/-- a lookup never yields an id that prints differently: the defect can only lose a name, not confuse two -/
+/-- the property predicate (Spec `roundTripOk`) at every id - including "the same id wherever the name is unique" -/
+theorem roundtrip_monitor (id : Nat) (h0 : 0 < id) (hlt : id < tables.count) :
+    roundTripOk names id (a64StringToInstId tables (names.getD id [])) = true := by
+  have hlen : names.length = tables.count := by decide +kernel
+  have h00 : names.getD 0 [] = [] := by decide +kernel
+  have ⟨h1, h2⟩ := name_roundtrip id h0 hlt
+  have hin := (allNamesIndexed_spec tables sortedNames names posOfId names_indexed id h0 (by omega))
+  have hl := idInSpan_len tables sortedNames _ hin.1
+  rw [hin.2] at hl
+  have hne : a64StringToInstId tables (names.getD id []) ≠ 0 := by
+    intro e; rw [e, h00] at h2; rw [← h2] at hl; simp at hl
+  simp only [roundTripOk, Bool.and_eq_true, bne_iff_ne, ne_eq, decide_eq_true_eq, beq_iff_eq, Bool.or_eq_true]
+  refine ⟨⟨⟨hne, by omega⟩, h2⟩, ?_⟩
+  by_cases hocc : occurrences names (names.getD id []) = 1
+  · right
+    exact occ_unique names _ _ _ (by omega) (by omega) h2 rfl hocc
+  · left; exact hocc
+
+/-- a lookup never yields an id that prints differently -/
 theorem lookup_sound (s : List Nat) (hr : a64StringToInstId tables s ≠ 0) :
     names.getD (a64StringToInstId tables s) [] = s := by
   unfold a64StringToInstId at hr ⊢
@@ -199,18 +332,14 @@ theorem lookup_sound (s : List Nat) (hr : a64StringToInstId tables s ≠ 0) :
   · exact absurd rfl hr
   · rename_i hc
     rw [if_neg hc]
-    exact (findInstruction_sound tables names decode_ok spans_in_table s hr).2
+    exact (findInstruction_sound tables names decode_ok sorted_ids_ok spans_in_table s hr).2
 
-/-- the finding at its witness: `ret` is the printed name of an id, yet it is looked up to kIdNone -/
-theorem name_roundtrip_witness :
-    (∃ id, id < tables.count ∧ names.getD id [] = [114, 101, 116]) ∧ a64StringToInstId tables [114, 101, 116] = 0 ∧
-    spanOk tables names (114 - 97) = false := by
-  refine ⟨⟨names.idxOf [114, 101, 116], ?_, ?_⟩, ?_, ?_⟩ <;> decide +kernel
-
--- non-vacuity of the partial theorem: letter `f` (fabd .. fsub, SIMD only) has a sorted span and `fadd` is found
-example : spanOk tables names (102 - 97) = true := by decide +kernel
-example : ∃ id, 0 < id ∧ id < tables.count ∧ names.getD id [] = [102, 97, 100, 100] ∧
-    a64StringToInstId tables [102, 97, 100, 100] = id := ⟨names.idxOf [102, 97, 100, 100], by decide +kernel⟩
+-- non-vacuity: `ret` (lost on the pinned tree) and `fadd` are found; `abs` names a general-purpose and a SIMD id and is
+-- looked up to the general-purpose one
+example : ∃ id, 0 < id ∧ id < tables.count ∧ names.getD id [] = [114, 101, 116] ∧
+    a64StringToInstId tables [114, 101, 116] = id := ⟨names.idxOf [114, 101, 116], by decide +kernel⟩
+example : occurrences names [97, 98, 115] = 2 ∧ a64StringToInstId tables [97, 98, 115] = 1 := by decide +kernel
+example : a64StringToInstId tables [114, 101, 122] = 0 := by decide +kernel
 
 end A64
 
